@@ -1,4 +1,4 @@
-CONSTANTS Mode = "grow"  MaxDepth = 8  GrowModes = {"bare", "sib", "dupl", "dupf", "twin"}
+CONSTANTS Mode = "grow"  MaxDepth = 8  FlatWidth = 3  LeafMode = "full"  GrowModes = {"bare", "sib", "dupl", "dupf", "twin"}
 SPECIFICATION Spec
 INVARIANT DepthOK
 INVARIANT LawsThenEmit
